@@ -1,3 +1,131 @@
 package main
 
-func paillierForgeries() []*forgery { return nil }
+// Adaptive-statement forgeries for the Paillier-based systems whose statement contains a group
+// element (or scalar) that enters one linear equation: logstar X, mulstar X, dec X, affg Xp.
+// The prover algorithm is replayed honestly for a witness x, except that the commitment to the
+// mask in the group (Y / Bx / Gamma) uses a *different* mask; the statement field is then solved
+// from the group equation with the challenge obtained for a dummy value of that field.
+
+import (
+	"crypto/rand"
+
+	"github.com/cronokirby/saferith"
+	"github.com/taurusgroup/multi-party-sig/pkg/math/curve"
+	"github.com/taurusgroup/multi-party-sig/pkg/math/sample"
+	zkaffg "github.com/taurusgroup/multi-party-sig/pkg/zk/affg"
+	zkdec "github.com/taurusgroup/multi-party-sig/pkg/zk/dec"
+	zklogstar "github.com/taurusgroup/multi-party-sig/pkg/zk/logstar"
+	zkmulstar "github.com/taurusgroup/multi-party-sig/pkg/zk/mulstar"
+)
+
+// resp = mask + e·w
+func resp(e, w, mask *saferith.Int) *saferith.Int {
+	z := new(saferith.Int).SetInt(w)
+	z.Mul(e, z, -1)
+	z.Add(z, mask, -1)
+	return z
+}
+
+// nresp = mask · nonce^e mod N
+func nresp(ks *keyset, e *saferith.Int, nonce, mask *saferith.Nat) *saferith.Nat {
+	z := ks.pk.Modulus().ExpI(nonce, e)
+	z.ModMul(z, mask, ks.pk.N())
+	return z
+}
+
+func modq(i *saferith.Int) curve.Scalar {
+	return group.NewScalar().SetNat(i.Mod(group.Order()))
+}
+
+func paillierForgeries() []*forgery {
+	G := group.NewBasePoint()
+	var l []*forgery
+
+	// logstar: [z1]G = Y + [e]X
+	l = append(l, &forgery{sys: "logstar", field: "X", make: func(ctx string) (interface{}, interface{}) {
+		pr, ve := envP, envV
+		N := pr.pk.N()
+		x := sample.IntervalL(rand.Reader)
+		rho := sample.UnitModN(rand.Reader, N)
+		alpha, alpha2 := sample.IntervalLEps(rand.Reader), sample.IntervalLEps(rand.Reader)
+		r, mu, gamma := sample.UnitModN(rand.Reader, N), sample.IntervalLN(rand.Reader), sample.IntervalLEpsN(rand.Reader)
+		pub := &zklogstar.Public{C: pr.pk.EncWithNonce(x, rho), X: randPoint(), G: G, Prover: pr.pk, Aux: ve.ped}
+		cm := &zklogstar.Commitment{S: ve.ped.Commit(x, mu), A: pr.pk.EncWithNonce(alpha, r), Y: modq(alpha2).ActOnBase(), D: ve.ped.Commit(alpha, gamma)}
+		e, _ := zklogstar.VerifChallenge(ctxHash(ctx), group, *pub, cm)
+		p := zklogstar.Empty(group)
+		p.Commitment = cm
+		p.Z1, p.Z2, p.Z3 = resp(e, x, alpha), nresp(pr, e, rho, r), resp(e, mu, gamma)
+		pub.X = modq(e).Invert().Act(modq(p.Z1).ActOnBase().Sub(cm.Y))
+		return plainify(pub), p
+	}})
+
+	// mulstar: [z1]G = Bx + [e]X
+	l = append(l, &forgery{sys: "mulstar", field: "X", make: func(ctx string) (interface{}, interface{}) {
+		ve := envV
+		N := ve.pk.N()
+		x := sample.IntervalL(rand.Reader)
+		rho := sample.UnitModN(rand.Reader, N)
+		C, _ := ve.pk.Enc(sample.IntervalL(rand.Reader))
+		D := C.Clone().Mul(ve.pk, x)
+		D.Randomize(ve.pk, rho)
+		alpha, alpha2 := sample.IntervalLEps(rand.Reader), sample.IntervalLEps(rand.Reader)
+		r, gamma, m := sample.UnitModN(rand.Reader, N), sample.IntervalLEpsN(rand.Reader), sample.IntervalLEpsN(rand.Reader)
+		A := C.Clone().Mul(ve.pk, alpha)
+		A.Randomize(ve.pk, r)
+		pub := &zkmulstar.Public{C: C, D: D, X: randPoint(), Verifier: ve.pk, Aux: ve.ped}
+		cm := &zkmulstar.Commitment{A: A, Bx: modq(alpha2).ActOnBase(), E: ve.ped.Commit(alpha, gamma), S: ve.ped.Commit(x, m)}
+		e, _ := zkmulstar.VerifChallenge(ctxHash(ctx), group, *pub, cm)
+		p := zkmulstar.Empty(group)
+		p.Commitment = cm
+		p.Z1, p.Z2, p.W = resp(e, x, alpha), resp(e, m, gamma), nresp(ve, e, rho, r)
+		pub.X = modq(e).Invert().Act(modq(p.Z1).ActOnBase().Sub(cm.Bx))
+		return plainify(pub), p
+	}})
+
+	// dec: z1 = e·x + γ (mod q)
+	l = append(l, &forgery{sys: "dec", field: "X", make: func(ctx string) (interface{}, interface{}) {
+		pr, ve := envP, envV
+		N := pr.pk.N()
+		y := sample.IntervalL(rand.Reader)
+		rho := sample.UnitModN(rand.Reader, N)
+		alpha := sample.IntervalLEps(rand.Reader)
+		mu, nu, r := sample.IntervalLN(rand.Reader), sample.IntervalLEpsN(rand.Reader), sample.UnitModN(rand.Reader, N)
+		pub := &zkdec.Public{C: pr.pk.EncWithNonce(y, rho), X: rs(), Prover: pr.pk, Aux: ve.ped}
+		cm := &zkdec.Commitment{S: ve.ped.Commit(y, mu), T: ve.ped.Commit(alpha, nu), A: pr.pk.EncWithNonce(alpha, r), Gamma: rs()}
+		e, _ := zkdec.VerifChallenge(ctxHash(ctx), group, *pub, cm)
+		p := zkdec.Empty(group)
+		p.Commitment = cm
+		p.Z1, p.Z2, p.W = resp(e, y, alpha), resp(e, mu, nu), nresp(pr, e, rho, r)
+		pub.X = modq(p.Z1).Sub(cm.Gamma).Mul(modq(e).Invert())
+		return plainify(pub), p
+	}})
+
+	// affg: [z1]G = Bx + [e]Xp
+	l = append(l, &forgery{sys: "affg", field: "Xp", make: func(ctx string) (interface{}, interface{}) {
+		pr, ve := envP, envV
+		N0, N1 := ve.pk.N(), pr.pk.N()
+		x, y := sample.IntervalL(rand.Reader), sample.IntervalLPrime(rand.Reader)
+		Kv, _ := ve.pk.Enc(sample.IntervalL(rand.Reader))
+		s, rr := sample.UnitModN(rand.Reader, N0), sample.UnitModN(rand.Reader, N1)
+		Dv := ve.pk.EncWithNonce(y, s).Add(ve.pk, Kv.Clone().Mul(ve.pk, x))
+		Fp := pr.pk.EncWithNonce(y, rr)
+		alpha, alpha2, beta := sample.IntervalLEps(rand.Reader), sample.IntervalLEps(rand.Reader), sample.IntervalLPrimeEps(rand.Reader)
+		rho, rhoY := sample.UnitModN(rand.Reader, N0), sample.UnitModN(rand.Reader, N1)
+		gamma, m, delta, mu := sample.IntervalLEpsN(rand.Reader), sample.IntervalLN(rand.Reader), sample.IntervalLEpsN(rand.Reader), sample.IntervalLN(rand.Reader)
+		pub := &zkaffg.Public{Kv: Kv, Dv: Dv, Fp: Fp, Xp: randPoint(), Prover: pr.pk, Verifier: ve.pk, Aux: ve.ped}
+		cm := &zkaffg.Commitment{
+			A:  ve.pk.EncWithNonce(beta, rho).Add(ve.pk, Kv.Clone().Mul(ve.pk, alpha)),
+			Bx: modq(alpha2).ActOnBase(),
+			By: pr.pk.EncWithNonce(beta, rhoY),
+			E:  ve.ped.Commit(alpha, gamma), S: ve.ped.Commit(x, m), F: ve.ped.Commit(beta, delta), T: ve.ped.Commit(y, mu),
+		}
+		e, _ := zkaffg.VerifChallenge(ctxHash(ctx), group, *pub, cm)
+		p := zkaffg.Empty(group)
+		p.Commitment = cm
+		p.Z1, p.Z2, p.Z3, p.Z4 = resp(e, x, alpha), resp(e, y, beta), resp(e, m, gamma), resp(e, mu, delta)
+		p.W, p.Wy = nresp(ve, e, s, rho), nresp(pr, e, rr, rhoY)
+		pub.Xp = modq(e).Invert().Act(modq(p.Z1).ActOnBase().Sub(cm.Bx))
+		return plainify(pub), p
+	}})
+	return l
+}
